@@ -434,7 +434,7 @@ const vC18QuickCases = 64
 
 // TestVerif_C18_prefixops_exhaustive: all prefix-free sets of depth <= 3 (quick) / <= 4 (thorough).
 func TestVerif_C18_prefixops_exhaustive(t *testing.T) {
-	vh.Run(t, vh.Spec{Prop: "C18", Unit: "prefixops_exhaustive", Quick: vC18QuickCases, Thorough: 4096, CostMs: 250, Exhaustive: true,
+	vh.Run(t, vh.Spec{Prop: "C18", Unit: "prefixops_exhaustive", Quick: vC18QuickCases, Thorough: 4096, CostMs: 140, Exhaustive: true,
 		Rule: "ALL 677 prefix-free sets of bit strings of length <= 3 (set i in case i mod 64), each as a canonical and as a pruned-shape trie, leaf space {0,1}^4: x all 31 targets/keys of length <= 4 x all 16 order patterns (bit256 order keys) for TrieGaps, NextNonEmptyLeaf (k a member, or comparable with no member), AllKeys; x all targets for FindPrefixOfKey, FindSubtrie, PruneSubtrie (+ the provider's prune-then-Add idiom); KeyspaceCovered, CoalesceTrie; SubtractTrie and SubtractTrie(.,CoalesceTrie(.)) for ALL 677 x 677 ordered pairs. Thorough adds ALL 458 330 sets of length <= 4 (set i in case i mod 4096), leaf space {0,1}^5, 63 targets, 4 order patterns per set (0..0, 1..1, 2 PRNG), subtraction against the 26 sets of length <= 2 in both directions and 24 PRNG partners. Definitions are evaluated on leaf bit masks by the monitor. Every case is non-trivial (counted per case index)",
 		Clauses: []string{"gaps", "subtract", "subtract-coalesced", "coalesce", "covered", "next-leaf-member", "next-leaf-absent", "prune", "prune-then-add", "find-prefix", "find-subtrie", "iter-order"}},
 		func(c *vh.Case) {
@@ -500,7 +500,7 @@ func TestVerif_C18_prefixops_exhaustive(t *testing.T) {
 // against the set model after every step, so that the operations are also judged on trie
 // shapes produced by arbitrary interleavings of the mutators (depth <= 5).
 func TestVerif_C18_prefixops_history(t *testing.T) {
-	vh.Run(t, vh.Spec{Prop: "C18", Unit: "prefixops_history", Quick: 1500, Thorough: 100000, CostMs: 4,
+	vh.Run(t, vh.Spec{Prop: "C18", Unit: "prefixops_history", Quick: 1500, Thorough: 100000, CostMs: 1,
 		Rule: "PRNG histories of 6-30 mutations on one bitstr trie, set model in lock-step: schedule(p) = the provider's idiom (skip if a key is a prefix of p, else PruneSubtrie(p)+Add(p)), PruneSubtrie(p) alone, Remove(member), CoalesceTrie; prefixes of length 0-5; after every step the key set is compared and TrieGaps (2 targets), NextNonEmptyLeaf (member and absent key), FindPrefixOfKey, FindSubtrie, KeyspaceCovered, SubtractTrie against a second PRNG set and AllKeys are judged against the definitions over {0,1}^6 with a PRNG order. Non-trivial = at least one prune removed keys without collapsing the trie and at least 3 keys were held at some point; distinct by the sequence of key sets",
 		Clauses: []string{"model-keys", "gaps", "next-leaf-member", "find-prefix", "find-subtrie", "covered", "subtract", "iter-order"}},
 		func(c *vh.Case) {
